@@ -192,6 +192,11 @@ M("C06", "segmentation-keeps-sp", "iodata/overlap.py", r"    obasis0 = convert_t
 M("C06", "missing-geometry-falls-back", "iodata/overlap.py", r"        if atcoords1 is None:\n            raise TypeError\(\n                \"When a second basis is given, a second second \"\n                \"array of atomic coordinates is expected\.\"\n            \)\n", "        if atcoords1 is None:\n            atcoords1 = atcoords0\n", "C06-R2")
 M("C06", "column-offset-not-advanced-for-s", "iodata/overlap.py", r"            begin1 = end1\n", "            begin1 = end1 if shell1.nbasis > 1 else begin1\n", "C06-R14")
 T("C06", "dispatch-in-a-helper", "iodata/overlap.py", r"        obasis1 = obasis0\n        atcoords1 = atcoords0\n        identical = True\n", "        obasis1, atcoords1, identical = _same(obasis0, atcoords0)\n", also=[(r"\nclass GaussianOverlap:", "\ndef _same(obasis, atcoords):\n    return obasis, atcoords, True\n\n\nclass GaussianOverlap:")])
+# ----------------------------------------------------------------------------- C13-R16: two frames written, two frames read
+M("C13", "sdf-terminator-only-after-last-frame", F + "sdf.py", r'    print\("\$\$\$\$", file=f\)\n', "", "C13-R16")
+M("C13", "pdb-end-record-dropped", F + "pdb.py", r'    print\("END", file=f\)', '    print("TER", file=f)', "C13-R16")
+M("C13", "mol2-dump-many-last-frame-first", F + "mol2.py", r"    for data in datas:\n        dump_one\(f, data\)", "    for data in sorted(datas, key=lambda d: -d.natom):\n        dump_one(f, data)", "C13-R16")
+T("C13", "mol2-dump-many-through-local", F + "mol2.py", r"    for data in datas:\n        dump_one\(f, data\)", "    for frame in datas:\n        dump_one(f, data=frame)")
 # ----------------------------------------------------------------------------- C14
 M("C14", "segmented-reversed", "iodata/convert.py", r"    for shell in obasis\.shells:\n        if \(shell\.ncon == 1\)", "    for shell in reversed(obasis.shells):\n        if (shell.ncon == 1)", "C14-R1")
 M("C14", "segmented-wrong-exponents", "iodata/convert.py", r"Shell\(shell\.icenter, \[angmom\], \[kind\], shell\.exponents, coeffs\.reshape\(-1, 1\)\)", "Shell(shell.icenter, [angmom], [kind], shell.exponents[::-1], coeffs.reshape(-1, 1))", "C14-R1")
